@@ -28,7 +28,11 @@ def main():
             open(path, "w").write(s.replace(old, new, 1))
         env = dict(os.environ, VERIF_REPO=tmp, VERIF_FOUND_DIR=os.path.join(tmp, "found"),
                    VERIF_EVIDENCE_DIR=os.path.join(tmp, "evidence"))
-        r = subprocess.run(["/verif/run", prop, tier], env=env, capture_output=True, text=True)
+        if tier.startswith("replay:"):
+            cmd = ["/verif/run", prop, "--replay", tier.split(":", 1)[1]]
+        else:
+            cmd = ["/verif/run", prop, tier]
+        r = subprocess.run(cmd, env=env, capture_output=True, text=True)
         out = r.stdout.strip().splitlines()
         print(f"exit={r.returncode}")
         for line in out[:14]:
